@@ -315,7 +315,7 @@ def is_cx(a):
 def ctx_state(ctx):
     st = ctx.ghost.get("c16")
     if st is None:
-        st = NS(backend="torch", generic=[], sum0=[], cache=[], log=[])
+        st = NS(backend="torch", generic=[], sum0=[], cache=[], log=[], dims=[])
         ctx.ghost["c16"] = st
     return st
 
@@ -360,12 +360,26 @@ def cx_map(f, *arrs):
 # ------------------------------------------------------------------------------------------------ finite sums over the 2-D index range
 
 
+def canon_dim(d):
+    """A dimension term provably equal (on the current path) to a registered canonical dimension is replaced by it
+    (slicing produces terms like If(n <= 0, 0, n))."""
+    t = lift(d)
+    if z3.is_const(t):
+        return t
+    ctx = V.cur()
+    for c in ctx_state(ctx).dims:
+        if t.eq(c) or ctx.entails(t == c):
+            return c
+    return z3.simplify(t)
+
+
 def sig2(nr, nc, body):
     """sum_{0<=i<nr, 0<=j<nc} body(i, j)  (real);  the summand is 0 outside the range so that extensionality is total."""
     i, j = z3.Int("i!s2"), z3.Int("j!s2")
-    b = r_term(body(i, j))
-    inr = z3.And(i >= 0, i < lift(nr), j >= 0, j < lift(nc))
-    return Sym(SIG2(lift(nr), lift(nc), z3.Lambda([i, j], z3.If(inr, b, z3.RealVal(0)))))
+    b = z3.simplify(r_term(body(i, j)))
+    nr, nc = canon_dim(nr), canon_dim(nc)
+    inr = z3.And(i >= 0, i < nr, j >= 0, j < nc)
+    return Sym(SIG2(nr, nc, z3.Lambda([i, j], z3.If(inr, b, z3.RealVal(0)))))
 
 
 def energy(arr, g=()):
